@@ -278,7 +278,13 @@ func runC04(env *Env, tier string) {
 			f, _ := p.Build("D", body, MsgOpt{Seq: n, PossDup: possDup})
 			m.deliver(fmt.Sprintf("%s app %s seq=%d possdup=%v", label, id, n, possDup), f, n, []int{n}, MsgOpt{Seq: n, PossDup: possDup})
 		} else {
-			// administrative number: an honest peer never replays it; as a first-time message it is a heartbeat
+			// administrative number: an honest peer never replays it; as a first-time message it is a
+			// heartbeat or a test request
+			if !possDup && n%3 == 0 {
+				f, _ := p.Build("1", []wire.Field{wire.F(112, fmt.Sprintf("TR%d", n))}, MsgOpt{Seq: n})
+				m.deliver(fmt.Sprintf("%s testrequest seq=%d", label, n), f, n, []int{n}, MsgOpt{Seq: n})
+				return
+			}
 			f, _ := p.Build("0", nil, MsgOpt{Seq: n, PossDup: possDup})
 			m.deliver(fmt.Sprintf("%s heartbeat seq=%d possdup=%v", label, n, possDup), f, n, []int{n}, MsgOpt{Seq: n, PossDup: possDup})
 		}
